@@ -31,6 +31,9 @@ import time
 import common
 import grammargen
 import panicsites
+import sys
+sys.path.insert(0, os.path.dirname(os.path.abspath(__file__)))
+import c01chain  # noqa: E402
 
 WATCHDOG_S = 20
 AS_LIMIT = 4 << 30
@@ -1085,11 +1088,66 @@ def run(ctx, proofs):
                 ctx.known_finding(k["id"], k["what"])
                 known_cases[k["id"]] += 1
 
+    # stage `chain`: the per-definition chain of Model.PipelineMirrors, extracted, on every definition the real
+    # parser + desugarer produce for the single-file sources of this run (and the programs of the liftfull
+    # generators): hypotheses of C01_definition_chain_never_panics evaluated, conclusion cross-checked, outcome
+    # class compared with the real into_cfg + into_ssa
+    chain_sources = sugar_matrix()
+    fed = set()
+    for c in cases:
+        if len(c.files) == 1 and c.kind.split(":")[0] in ("grammar", "corpus", "mutant", "adversarial"):
+            data = list(c.files.values())[0]
+            if data not in fed:
+                fed.add(data)
+                chain_sources.append((c.kind.split(":")[0], data))
+    t_chain = time.time()
+    chain = c01chain.run(common, ctx.rng, not thorough, chain_sources, nesting_depth)
+    chain_s = time.time() - t_chain
+    if chain["impl_panics"]:
+        f = chain["impl_panics"][0]
+        ctx.violation("the real per-definition pipeline (into_cfg, into_ssa with propagation) panics on a definition of %s "
+                      "(%d definitions, first: %s)" % (f["label"], len(chain["impl_panics"]), f["impl"]),
+                      {"input": Case("chain", {"w.circom": f["src"].encode()}, ["w.circom"]).to_json(), "chain_src": f["src"],
+                       "impl": f["impl"], "spec": "no panic", "model": f["model"], "replay_kind": "chain"})
+    if chain["disagreements"]:
+        f = chain["disagreements"][0]
+        ctx.violation("the extracted chain Model.PipelineMirrors.analyse_body and the real into_cfg + into_ssa end in "
+                      "different outcome classes (%d definitions, first: %s: real %s, mirror %s)"
+                      % (len(chain["disagreements"]), f["label"], f["impl"], f["model"]),
+                      {"input": Case("chain", {"w.circom": f["src"].encode()}, ["w.circom"]).to_json(), "chain_src": f["src"],
+                       "impl": f["impl"], "spec": f["model"], "definition": f.get("def"), "replay_kind": "chain"})
+    if chain["hyp_broken"]:
+        f = chain["hyp_broken"][0]
+        ctx.violation("a hypothesis of C01_definition_chain_never_panics / C01_pipeline_mirrors_never_panic does not hold "
+                      "of a definition the real parser + desugarer hand to lifting: %s (%d definitions, first: %s)"
+                      % (", ".join(f["unmet"]), len(chain["hyp_broken"]), f["label"]),
+                      {"broken": "hypothesis " + ", ".join(f["unmet"]), "source": f["src"], "definition": f["def"],
+                       "impl": f["impl"], "model": f["model"]}, no_input=True)
+    if chain["thm_broken"] or chain["order_dependent"]:
+        f = (chain["thm_broken"] or chain["order_dependent"])[0]
+        ctx.violation("the extracted chain contradicts C01_definition_chain_never_panics (hypotheses met, outcome %s) or "
+                      "its outcome depends on the enumeration order of a hash set" % (f.get("model") or f.get("identity_order")),
+                      {"broken": "C01_definition_chain_never_panics vs coq/extract/chain", "first": f}, no_input=True)
+    if chain["degenerate"]:
+        ctx.violation("the chain stage is degenerate: " + "; ".join(chain["degenerate"]),
+                      {"broken": "lib/props/c01chain.py FIXED", "what": chain["degenerate"]}, no_input=True)
+
     # the theorems cited by the panic map must resolve in Coq (gen/PanicCites<Cnn>.v: one `Check` each)
     unresolved, unchecked, cites_n = panicsites.cites_check()
+    ready = set()
+    try:
+        ready = set(open(os.path.join(common.VERIF, "manifest.d", "ready.txt")).read().split())
+    except OSError:
+        pass
     for prop, out in unchecked:
         common.log("panic-site inventory: citations of %s not re-checked by Coq, a file of %s does not build now: %s"
                    % (prop, prop, " ".join(out.split())[-300:]))
+        # a property that is claimed ready must build: its theorems discharge panic sites of the map
+        if prop in ready and not common.ALT:
+            ctx.violation("the theorems of %s that coq/PANIC_MAP.json cites could not be re-checked: %s is claimed ready "
+                          "(manifest.d/ready.txt) but a file of its cone does not build" % (prop, prop),
+                          {"broken": "gen/PanicCites%s.v (dependency does not build)" % prop,
+                           "coq_output": out[-1200:]}, no_input=True)
     if unresolved:
         common.log("panic-site inventory: a cited theorem does not resolve:\n" + unresolved[0][1][-600:])
         if not ctx.violations:
@@ -1141,7 +1199,20 @@ def run(ctx, proofs):
         "watchdog_s": WATCHDOG_S, "address_space_limit_bytes": AS_LIMIT,
         "modest_size": "<= %d bytes and syntactic nesting estimate <= %d" % (MODEST_BYTES, MODEST_DEPTH),
         "panic_sites": panicsites.summary(),
-        "open_statements": [],
+        "chain": {k: v for k, v in chain.items() if not isinstance(v, list)}
+                 | {"seconds": round(chain_s, 1), "disagreements": len(chain["disagreements"]),
+                    "hypotheses_unmet": len(chain["hyp_broken"]), "theorem_cross_check_failures": len(chain["thm_broken"]),
+                    "real_panics": len(chain["impl_panics"]), "order_dependent_outcomes": len(chain["order_dependent"]),
+                    "rule": "one evaluation = one distinct definition (DEF text) handed to lifting by the real parser + "
+                            "desugarer; every occurrence of it is compared with the real outcome class"},
+        "open_statements": [
+            "ssa_output_ok (one defining assignment per local in the graph the SSA mirror returns: the second hypothesis of "
+            "C20_propagate_completes) is a hypothesis about the OUTPUT of Model.Ssa.into_ssa, evaluated on every explored "
+            "definition (coverage chain.hypothesis_evaluations), not derived from C14_construction_unique_defs",
+            "the LALRPOP parser is a parameter of the chain: a panic inside the generated automaton cannot be expressed in "
+            "C01_pipeline_mirrors_never_panic (its semantic actions are covered by the action theorems; the automaton is "
+            "exercised by the engine)",
+        ],
     })
     ctx.assumptions += [
         "observed, not proved: the LALRPOP automaton and lexer, clap, codespan-reporting/termcolor, serde_sarif, std::fs, "
@@ -1160,6 +1231,8 @@ def run(ctx, proofs):
 
 
 def replay(ctx, rep):
+    if rep.get("replay_kind") == "chain" and "chain_src" in rep:
+        return 1 if c01chain.replay_source(common, rep["chain_src"]) else 0
     if "input" not in rep:
         print("replay names a broken obligation, not an input:", rep.get("broken"))
         print(json.dumps(rep.get("inventory_diff"), indent=1)[:3000])
